@@ -7,7 +7,8 @@ namespace Driver.C04
 
 def nslots : Nat := 8
 
-def init : State := { heap := [], slots := List.replicate nslots V.none }
+/-- `nslots` addressable root Vars + one hidden root (index `nslots`) that holds the fresh container of `p = Array<T>` / `p = Dic<T>` -/
+def init : State := { heap := [], slots := List.replicate (nslots + 1) V.none }
 
 def errStr : Err → String
   | .sharedGrowth => "skip-shared-growth"
@@ -162,6 +163,15 @@ def convStr (σ : State) (v : V) : String :=
   let ul := match toULong v with | some u => s!"{u}" | none => "u"
   s!"i={i} L={l} Q={ul} d={d} b={b01 (toBool v)} s={s}"
 
+/-- `p = Array<T>` / `p = Dic<T>` (`free(); NEW_ARRAY/NEW_DIC; resize/reserve(n); fill`): the target is REBOUND to a fresh container —
+the history `hidden = Var(x); p = hidden; hidden = Var()` of the model's own statements (same final heap: the fresh block with
+capacity `litCap n` and count 1 at the target, the old content released once) -/
+def assignFresh (guard : Bool) (σ : State) (p : Path) (ctor : Op) : State × String :=
+  let σ1 := (applyOp guard σ ctor).1
+  let (σ2, r) := applyOp guard σ1 (.setV p { root := nslots, steps := [] })
+  let σ3 := (applyOp guard σ2 (.drop nslots)).1
+  (σ3, match r with | .ok _ => "ok" | .error e => errStr e)
+
 def step (σ : State) (ts0 : List String) : State × String :=
   let (guard, ts) := match ts0 with
     | op :: rest => if op.startsWith "!" then (false, (op.drop 1).toString :: rest) else (true, ts0)
@@ -171,6 +181,16 @@ def step (σ : State) (ts0 : List String) : State × String :=
   if ts == ["reset"] then (σ, "ok") else
   match ts with
   | [] => bad
+  | "seta" :: ps :: kind :: vals =>
+    match parsePathP ps, vals.mapM (parseLit1 kind) with
+    | some p, some lits => assignFresh guard σ p (.ctorArr nslots lits)
+    | _, _ => bad
+  | "setd" :: ps :: kind :: pairs =>
+    match parsePathP ps, (if kind == "i" || kind == "s" then pairs.mapM (fun kv => match kv.splitOn "=" with
+        | [a, b] => do pure ((← unhex a), (← parseLit1 kind b))
+        | _ => none) else none) with
+    | some p, some kvs => assignFresh guard σ p (.ctorDic nslots kvs)
+    | _, _ => bad
   | opn :: _ =>
     if isMutName opn then
       match parseOp ts with
@@ -187,7 +207,7 @@ def step (σ : State) (ts0 : List String) : State × String :=
     | none => bad
   | ["dumpall"] =>
     (σ, outOf (do
-      let parts ← σ.slots.mapM fun v => dumpV fuel σ.heap v
+      let parts ← (σ.slots.take nslots).mapM fun v => dumpV fuel σ.heap v
       pure (" ".intercalate parts)))
   | ["eq", q1, q2] =>
     match parsePath q1, parsePath q2 with
